@@ -234,6 +234,28 @@ def applyContextCfg (ρ : RawTy) : List (Str × PV) → List (Str × PV) → Opt
     | some (.error e) => some (.error e)
     | some (.ok v) => applyContextCfg ρ (setKey k v contexts) rest
 
+/-! ## files: `load_config_file` / `dump_config_file` over a file system that is just "name ↦ current text" -/
+
+abbrev FS := List (Str × List Nat)
+
+def fsRead : FS → Str → Option (List Nat)
+  | [], _ => .none
+  | (g, t) :: fs, f => if g = f then some t else fsRead fs f
+
+def fsWrite (fs : FS) (f : Str) (t : List Nat) : FS := (f, t) :: fs
+
+/-- `load_config_file(filename)`: no state besides the file system -/
+def loadFile (jl : List Nat → Option PV) (fs : FS) (f : Str) : R PV :=
+  match fsRead fs f with
+  | .none => .error .osError
+  | some t => loadString jl t
+
+/-- `dump_config_file(cfg, filename)` -/
+def dumpFile (fs : FS) (cfg : PV) (f : Str) : R FS :=
+  match dumpString cfg with
+  | .error e => .error e
+  | .ok t => .ok (fsWrite fs f t)
+
 /-- `\r` and `\n` are the same thing to `_strip_comments` -/
 def nlNorm (s : List Nat) : List Nat := s.map (fun c => if c = 13 then 10 else c)
 
